@@ -6,6 +6,7 @@ pub mod observe;
 pub mod tracex;
 pub mod tovalue;
 pub mod schemax;
+pub mod threadsx;
 pub mod pure;
 pub mod pure2;
 
